@@ -564,3 +564,123 @@ def deref_at(fn_node, expr, depth=4):
             return expr
         break
     return expr
+
+
+# ---- flag-sensitive path queries ------------------------------------------------
+def flag_vars(fn_node):
+    """Locals whose every binding in the function is `name = <literal>` (loop / completion flags such as
+    `is_truncated = True ... is_truncated = False`): their value is known along a path, so tests on them
+    can be decided instead of following both edges."""
+    params = {a.arg for a in fn_node.args.posonlyargs + fn_node.args.args + fn_node.args.kwonlyargs}
+    for a in (fn_node.args.vararg, fn_node.args.kwarg):
+        if a is not None:
+            params.add(a.arg)
+    good, bad = set(), set(params)
+    stack = list(fn_node.body)
+    while stack:
+        n = stack.pop()
+        if isinstance(n, (ast.FunctionDef, ast.AsyncFunctionDef, ast.Lambda, ast.ClassDef)):
+            for x in ast.walk(n):  # a nested scope that rebinds or declares the name makes it unknown
+                if isinstance(x, (ast.Nonlocal, ast.Global)):
+                    bad.update(x.names)
+            if not isinstance(n, ast.Lambda):
+                bad.add(n.name)
+            continue
+        if isinstance(n, ast.Assign) and len(n.targets) == 1 and isinstance(n.targets[0], ast.Name) and isinstance(n.value, ast.Constant):
+            good.add(n.targets[0].id)
+            continue
+        if isinstance(n, ast.Name) and isinstance(n.ctx, (ast.Store, ast.Del)):
+            bad.add(n.id)
+        if isinstance(n, (ast.Global, ast.Nonlocal)):
+            bad.update(n.names)
+        if isinstance(n, ast.ExceptHandler) and n.name:
+            bad.add(n.name)
+        stack.extend(ast.iter_child_nodes(n))
+    return good - bad
+
+
+def eval_flag_test(test, env):
+    """True / False when the test is decided by the known flag values in env (dict name -> literal), else None"""
+    if isinstance(test, ast.Constant):
+        return bool(test.value)
+    if isinstance(test, ast.Name):
+        return bool(env[test.id]) if test.id in env else None
+    if isinstance(test, ast.UnaryOp) and isinstance(test.op, ast.Not):
+        v = eval_flag_test(test.operand, env)
+        return None if v is None else not v
+    if isinstance(test, ast.BoolOp):
+        vals = [eval_flag_test(v, env) for v in test.values]
+        if isinstance(test.op, ast.And):
+            if any(v is False for v in vals):
+                return False
+            return True if all(v is True for v in vals) else None
+        if any(v is True for v in vals):
+            return True
+        return False if all(v is False for v in vals) else None
+    if isinstance(test, ast.Compare) and len(test.ops) == 1:
+        l, r, op = test.left, test.comparators[0], test.ops[0]
+
+        def val(e):
+            if isinstance(e, ast.Constant):
+                return (True, e.value)
+            if isinstance(e, ast.Name) and e.id in env:
+                return (True, env[e.id])
+            return (False, None)
+
+        (kl, vl), (kr, vr) = val(l), val(r)
+        if kl and kr:
+            if isinstance(op, ast.Is):
+                return vl is vr if (vl is None or vr is None or isinstance(vl, bool) or isinstance(vr, bool)) else None
+            if isinstance(op, ast.IsNot):
+                return vl is not vr if (vl is None or vr is None or isinstance(vl, bool) or isinstance(vr, bool)) else None
+            if isinstance(op, ast.Eq):
+                return vl == vr
+            if isinstance(op, ast.NotEq):
+                return vl != vr
+    return None
+
+
+def armed_path(cfg, fn_node, arm, disarm, targets, kinds=('normal',), initially=False):
+    """Flag-sensitive typestate search.  Walks the CFG from the entry with the known values of the flag
+    locals; passing a node of `arm` sets the state, passing a node of `disarm` clears it.  Returns a path
+    (list of nodes) that reaches a node of `targets` with the state set, or None.  Tests decided by the flag
+    values only follow the feasible edge, so `done = False ... if cond: done = True ... if done: return`
+    is read as the early exit it is."""
+    flags = flag_vars(fn_node)
+    arm, disarm, targets = {id(n) for n in arm}, {id(n) for n in disarm}, {id(n) for n in targets}
+    start = (cfg.entry, frozenset(), bool(initially))
+    prev = {(id(cfg.entry), start[1], start[2]): (None, cfg.entry)}
+    dq = deque([start])
+    while dq:
+        n, envf, armed = dq.popleft()  # armed: the state on arrival at n, before n's own effect
+        key = (id(n), envf, armed)
+        if id(n) in targets and armed:
+            out, cur = [], key
+            while cur is not None:
+                cur, node = prev[cur]
+                out.append(node)
+            return list(reversed(out))
+        if id(n) in arm:
+            armed = True
+        if id(n) in disarm:
+            armed = False
+        if n.kind == 'stmt' and isinstance(n.ast, ast.Assign) and len(n.ast.targets) == 1 and isinstance(n.ast.targets[0], ast.Name) and n.ast.targets[0].id in flags and isinstance(n.ast.value, ast.Constant) and not n.label:
+            d = dict(envf)
+            d[n.ast.targets[0].id] = n.ast.value.value
+            envf = frozenset(d.items())
+        allowed = None
+        if n.kind == 'test' and isinstance(n.ast, (ast.If, ast.While)):
+            v = eval_flag_test(n.ast.test, dict(envf))
+            if v is not None:
+                allowed = 'true' if v else 'false'
+        for s_, k in n.succ:
+            if k not in kinds:
+                continue
+            if allowed is not None and s_.kind in ('true', 'false') and s_.kind != allowed:
+                continue
+            k2 = (id(s_), envf, armed)
+            if k2 in prev:
+                continue
+            prev[k2] = (key, s_)
+            dq.append((s_, envf, armed))
+    return None
